@@ -25,6 +25,7 @@ func init() {
 		Level: "model_checking",
 		Rule: "bounded exhaustive enumeration of abstract packets of all 15 types (strata of DESIGN.md 3.0: S0 bases; S1 the complete presence lattice 2^n of optional fields; S2 every assignment deviating from the empty/full base in <=2 (quick) / <=3 (thorough) fields to any value of that field's boundary domain — lengths 0,1,2,127,128,16383,16384,65534,65535, integer extremes, both booleans, every list of length <=3 over a 3-letter alphabet with a duplicate; S3 packets whose remaining length / property length sits on each side of the 1-2-3-4 byte steps). " +
 			"S5 dense strata: every length 0..300 (thorough 0..1100 and isolated larger ones) of every string/binary field from three bases, pairs of fields over 16 lengths, every subscription identifier whose 7-bit groups come from a 9-letter alphabet, 28 filter contents x every legal option byte x placement. The bases, single-field deviations, small presence subsets and part of the dense strata are built a second time with String, Dump and WriteTo called on the half-built packet after every setter, and PUBLISH packets with their four header setters in all 24 orders before and after the other fields. " +
+			"Further dense strata: every numeric field at every value 0..300 and at every byte value in every byte position, the packet identifier at all 65 536 values, two long fields at once (30 000 + 40 000, 2 x 32 768, 2 x 65 535), payloads and passwords of non-UTF-8 bytes at every length, filter lists whose elements are related (prefix, sibling, wildcard, repeated). PUBLISH header setters in all 48 orders; CONNECT will / will delay / credentials in all four orders; the shortest frames also read from a reader that returns the last byte together with io.EOF. " +
 			"Each is built through the public constructors and setters only, written with WriteTo, read back with ReadPacket, observed through every public accessor and compared field by field with the abstract packet; then written again and compared byte for byte. " +
 			"distinct_nontrivial = distinct abstract packets (by slot vector) with at least one optional field present.",
 		Assumptions: []string{
